@@ -20,6 +20,7 @@ import z3
 from .. import build as B
 from .. import cshapes as CS
 from .. import oracle as O
+from .. import purity
 
 PROP = "C14"
 SETUP = {"stub_str": "list-only"}
@@ -154,6 +155,9 @@ def jobs(tier, seed):
             c2 = {"in": ev[:1], "out": ["z"], "a": [{ev[0]: sg}], "g": [{"z": 1, ev[0]: -1}]}
             for op in ("compose", "elim-refine", "elim-relax", "quotient"):
                 adv.append({"op": op, "c1": c1, "c2": c2})
+    # a dividend guarantee that a tactic transforms although the quotient as a whole fails (leftover internal variable)
+    adv.append({"op": "quotient", "c1": {"in": ["i"], "out": ["o", "p"], "a": [], "g": [{"o": 1, "i": -1}, {"p": 1, "i": 1}]}, "c2": {"in": ["i"], "out": ["m"], "a": [], "g": [{"m": 1, "i": -1}, {"m": -1, "i": 1}]}})
+    adv.append({"op": "quotient", "c1": {"in": ["i"], "out": ["o", "p"], "a": [{"i": 1}], "g": [{"o": 1, "i": -2}, {"p": -1, "i": 1}]}, "c2": {"in": ["i"], "out": ["m"], "a": [{"i": 1}], "g": [{"m": 1, "i": -1}]}})
     for a in adv:
         for ti, tac in enumerate(([1, 2, 3, 4, 5], [5], [4], [3], [2, 1], [])):
             if a["op"] not in ("compose", "quotient", "elim-refine", "elim-relax") and ti > 0:
@@ -176,13 +180,15 @@ def jobs(tier, seed):
     return out
 
 
-def adversarial(ctx, job):
+def adversarial(ctx, job, hold):
     import pacti.terms.polyhedra.serializer as S
 
     P = B.P()
     op = job["op"]
     c1 = B.mk_contract(ctx, job["c1"], "p")
     c2 = B.mk_contract(ctx, job["c2"], "q")
+    hold["operands"] = {"c1": c1, "c2": c2}
+    hold["before"] = purity.guard(ctx, hold["operands"])
     tac = list(job["tactics"])
     vs = (job["c1"]["in"] + job["c1"]["out"]) or ["x"]
     elim = [B.Var(v) for v in (job["c1"]["out"] or ["y"])] + [B.Var("unrelated")]
@@ -235,12 +241,15 @@ def run(ctx, job):
         return {"cls": cls if cls in DOCUMENTED else "OK"}
     if kind.startswith("adversarial:"):
         ctx.tag("adversarial")
+        hold = {}
         try:
-            adversarial(ctx, job)
+            adversarial(ctx, job, hold)
         except Exception as e:
             cls = B.classify(e)
             if cls.startswith("ESC:"):
                 ctx.expect("only-documented-exceptions", False, info=f"{job['op']}: {cls}@{B.innermost_pacti_frame(e)}")
+            if "before" in hold:
+                purity.check_unchanged(ctx, hold["before"], hold["operands"], "an-error-leaves-all-operands-usable", info=f"{job['op']} raised {cls};")
             return {"cls": cls}
         return {"cls": "OK"}
     # ---- dictionary and file faults (concrete) -------------------------------------------------
